@@ -55,7 +55,9 @@ fn fwd(op: &Op, _ctx: &dyn Context, operands: &mut dyn CoordinateSet) -> usize {
     let H = F * t0.powf(B);
     let G = (F - 1.0 / F) / 2.0;
     let gamma_0 = (alpha.sin() / D).asin();
-    let lambda_0 = lonc - (G * gamma_0.tan()).asin() / B;
+    // asin(G * tan(gamma_0)), written in a form that stays well conditioned when the
+    // argument approaches 1, i.e. for alpha = 90 (note that G*G = D*D - 1)
+    let lambda_0 = lonc - (G * gamma_0.sin()).atan2(alpha.cos().abs()) / B;
 
     // (uc, vc): Intermediate coordinates of the projection center
     // let vc = 0.0;
@@ -96,21 +98,9 @@ fn fwd(op: &Op, _ctx: &dyn Context, operands: &mut dyn CoordinateSet) -> usize {
 
         // Variant B and/or Laborde
 
-        // The special case
-        if ninety {
-            let u = if lon == lambda_0 {
-                0.0
-            } else {
-                A * (S * c0 + V * s0).atan2(cblon) / B - uc.copysign(latc) * (lonc - lon).signum()
-            };
-            let x = v * cc + u * sc + Ec;
-            let y = u * cc - v * sc + Nc;
-            operands.set_xy(i, x, y);
-            successes += 1;
-            continue;
-        }
-
-        // The general case
+        // The general case. This also covers alpha = 90: the sign switching at lonc,
+        // prescribed by the Guidance Note for that case, compensates for the branch
+        // cut of the plain arctangent - using atan2, u is continuous across lonc
         let u = A * (S * c0 + V * s0).atan2(cblon) / B - uc.copysign(latc);
         let x = v * cc + u * sc + Ec;
         let y = u * cc - v * sc + Nc;
@@ -162,7 +152,9 @@ fn inv(op: &Op, _ctx: &dyn Context, operands: &mut dyn CoordinateSet) -> usize {
     let H = F * t0.powf(B);
     let G = (F - 1.0 / F) / 2.0;
     let gamma_0 = (alpha.sin() / D).asin();
-    let lambda_0 = lonc - (G * gamma_0.tan()).asin() / B;
+    // asin(G * tan(gamma_0)), written in a form that stays well conditioned when the
+    // argument approaches 1, i.e. for alpha = 90 (note that G*G = D*D - 1)
+    let lambda_0 = lonc - (G * gamma_0.sin()).atan2(alpha.cos().abs()) / B;
 
     // (uc, vc): Intermediate coordinates of the projection center
     // let vc = 0.0;
